@@ -22,6 +22,9 @@ class Guard:
         self.lock_expr = lock_expr  # Expr of the lock object (e.g. self.counters)
         self.mode = mode            # 'write' | 'read' | 'lock'
         self.drops = [bi for bi, t in body.terms() if t['k'] == 'drop' and t['p'] == [local]]
+        ds = body.defs().get(local, [])
+        # the block in which the guard value comes into existence (after the await for async locks)
+        self.def_bb = ds[0][1] if ds else acq.bb
 
     def lock_field(self):
         root, path = self.lock_expr.field_path()
@@ -134,7 +137,7 @@ def atomic_section(body, guard, a, b):
     """check `a` and act `b` (blocks) are inside one live range of `guard`: acquisition dominates
     both, and no drop of the guard and no await point lies on a path a -> b.
     returns (ok, reason)"""
-    acq_bb = guard.acq.bb
+    acq_bb = guard.def_bb
     if not (body.dominates(acq_bb, a) and body.dominates(acq_bb, b)):
         return False, 'lock acquisition at bb%d does not dominate both the check and the update' % acq_bb
     avoid = {acq_bb, a}
